@@ -13,7 +13,8 @@ pub fn to_jer_identifier(identifier: &str) -> String {
     identifier.replace('-', "_")
 }
 
-pub fn type_to_tokens(ty: &ASN1Type) -> String {
+/// `implied`: the module says EXTENSIBILITY IMPLIED, which makes every SEQUENCE and SET extensible
+pub fn type_to_tokens(ty: &ASN1Type, implied: bool) -> String {
     match ty {
         ASN1Type::Null => String::from("null"),
         ASN1Type::Boolean(_) => String::from("boolean"),
@@ -34,10 +35,10 @@ pub fn type_to_tokens(ty: &ASN1Type) -> String {
             .map(|m| format!(r#""{}""#, m.name))
             .collect::<Vec<_>>()
             .join(" | "),
-        ASN1Type::Choice(c) => format_choice_options(c),
-        ASN1Type::Set(se) | ASN1Type::Sequence(se) => format_sequence_or_set_members(se),
+        ASN1Type::Choice(c) => format_choice_options(c, implied),
+        ASN1Type::Set(se) | ASN1Type::Sequence(se) => format_sequence_or_set_members(se, implied),
         ASN1Type::SetOf(s) | ASN1Type::SequenceOf(s) => {
-            array_type(&type_to_tokens(&s.element_type))
+            array_type(&type_to_tokens(&s.element_type, implied))
         }
         ASN1Type::ElsewhereDeclaredType(e) => to_jer_identifier(&e.identifier),
         _ => String::from("any"),
@@ -54,7 +55,7 @@ pub fn array_type(element_type: &str) -> String {
     }
 }
 
-pub fn format_choice_options(choice: &Choice) -> String {
+pub fn format_choice_options(choice: &Choice, implied: bool) -> String {
     choice
         .options
         .iter()
@@ -62,14 +63,14 @@ pub fn format_choice_options(choice: &Choice) -> String {
             format!(
                 r#"{{{}: {}}}"#,
                 to_jer_identifier(&m.name),
-                type_to_tokens(&m.ty)
+                type_to_tokens(&m.ty, implied)
             )
         })
         .collect::<Vec<_>>()
         .join(" | ")
 }
 
-pub fn format_sequence_or_set_members(se: &SequenceOrSet) -> String {
+pub fn format_sequence_or_set_members(se: &SequenceOrSet, implied: bool) -> String {
     format!(
         r#"{{
             {}{}
@@ -84,12 +85,15 @@ pub fn format_sequence_or_set_members(se: &SequenceOrSet) -> String {
                 } else {
                     ""
                 },
-                type_to_tokens(&m.ty)
+                type_to_tokens(&m.ty, implied)
             ))
             .collect::<Vec<_>>()
             .join("\n"),
-        se.extensible
-            .map_or(String::new(), |_| String::from("\n\t[key: string]: any"))
+        if se.extensible.is_some() || implied {
+            String::from("\n\t[key: string]: any")
+        } else {
+            String::new()
+        }
     )
 }
 
